@@ -66,6 +66,8 @@ def build_term(t, V):
 
 def _build_term(t, V):
     k = t[0]
+    if k == "subq":
+        return an(entity(V[t[1]], build_cond(t[2], V)))
     if k == "attr":
         return getattr(build_term(t[1], V), t[2])
     if k == "idx":
